@@ -395,6 +395,138 @@ Proof.
     destruct (Ha n r Er) as [_ [Hw [Hwatch _]]]. split; assumption.
 Qed.
 
+(* ------------------------------------------------------------------ *)
+(* the chain's true height                                             *)
+(* ------------------------------------------------------------------ *)
+
+(* the executable property does not look at the loop's belief about the height *)
+Lemma iter_at_weaken (k : consts) (s0 : Z) (n : N) (it : iter) :
+  iter_at true k s0 n it = true -> iter_at false k s0 n it = true.
+Proof.
+  unfold iter_at. intro H. destruct (i_ann it) as [[m r]|]; [|exact H].
+  destruct (i_cur it) as [[c|]|]; try (rewrite !andb_false_r in H; cbn in H; discriminate H).
+  rewrite !andb_true_r. rewrite !andb_true_iff in H. rewrite !andb_true_iff. tauto.
+Qed.
+
+Lemma iter_ok_weaken (k : consts) (s0 : Z) (it : iter) :
+  iter_ok true k s0 it = true -> iter_ok false k s0 it = true.
+Proof.
+  unfold iter_ok. destruct (i_ann it) as [[n r]|] eqn:E; [|exact (fun H => H)].
+  apply iter_at_weaken.
+Qed.
+
+Lemma spec_its_weaken (k : consts) (s0 : Z) (its : list iter) :
+  spec_its true k s0 its = true -> spec_its false k s0 its = true.
+Proof.
+  unfold spec_its. intro H. apply andb_true_iff in H. destruct H as [H1 H2].
+  apply andb_true_iff. split; [|exact H2].
+  rewrite forallb_forall in H1. apply forallb_forall. intros it Hin.
+  apply iter_ok_weaken, H1, Hin.
+Qed.
+
+(* [hs] gives the chain's true height during each iteration of a script: wherever the scripted
+   current-block query answers (st_cur = Some c), it answers the true height *)
+Fixpoint sees (script : list step) (hs : list Z) : Prop :=
+  match script, hs with
+  | [], _ => True
+  | s :: t, h :: t' => (forall c, st_cur s = Some c -> c = h) /\ sees t t'
+  | _ :: _, [] => False
+  end.
+
+(* every announcing iteration runs below the announcement end block of its attempt *)
+Definition truth (k : consts) (s0 : Z) (its : list iter) (hs : list Z) : Prop :=
+  Forall2 (fun it h => forall n r, i_ann it = Some (n, r) -> h < ann_end k s0 n) its hs.
+
+Theorem truth_ok_sound (k : consts) (s0 : Z) (its : list iter) : forall hs,
+  truth_ok k s0 its hs = true -> truth k s0 its hs.
+Proof.
+  unfold truth. induction its as [|it t IH]; intros [|h t'] H; try discriminate H.
+  - constructor.
+  - cbn [truth_ok] in H. apply andb_true_iff in H. destruct H as [Hh Ht].
+    constructor; [|exact (IH _ Ht)].
+    intros n r E. unfold height_ok in Hh. rewrite E in Hh. lia.
+Qed.
+
+Section TrueHeight.
+  Variable k : consts.
+  Variable ops : list N.
+  Variable count : N.
+  Variable self : N.
+  Variable select : N -> list N -> sel.
+  Variable s0 : Z.
+
+  Lemma sign_loop_truth (script : list step) : forall hs counter start cancelled,
+    next_start k counter start = att_start k s0 (counter + 1) ->
+    sees script hs ->
+    let its := fst (sign_loop k ops count self select script counter start cancelled) in
+    truth_ok k s0 its (firstn (length its) hs) = true.
+  Proof.
+    induction script as [|s rest IH]; intros hs counter start cancelled Hinv Hsees.
+    - cbn [sign_loop]. destruct cancelled; reflexivity.
+    - destruct hs as [|h t']; [destruct Hsees|]. destruct Hsees as [Hh Ht].
+      cbn [sign_loop]. destruct cancelled; [reflexivity|].
+      fold (next_start k counter start). rewrite Hinv.
+      assert (forall c,
+                 truth_ok k s0
+                   (fst (sign_loop k ops count self select rest (counter + 1)
+                           (att_start k s0 (counter + 1)) c))
+                   (firstn (length (fst (sign_loop k ops count self select rest (counter + 1)
+                                           (att_start k s0 (counter + 1)) c))) t') = true) as IH'.
+      { intro c. apply IH; [exact (next_start_step k ops select s0 counter)|exact Ht]. }
+      cbv zeta. split_all; cbn [fst snd prepend length firstn truth_ok];
+        rewrite ?IH', ?andb_true_r;
+        try match goal with H : st_cur s = Some _ |- _ => pose proof (Hh _ H) end;
+        unfold height_ok, ann_end, ann_start; cbn [i_ann]; try reflexivity; lia.
+  Qed.
+
+  Theorem sign_trace_truth (script : list step) (hs : list Z) :
+    sees script hs ->
+    let its := fst (sign_loop k ops count self select script 0 s0 false) in
+    truth_ok k s0 its (firstn (length its) hs) = true.
+  Proof. intro H. apply sign_loop_truth; [apply next_start_init|exact H]. Qed.
+End TrueHeight.
+
+(* the signing loop takes part in attempt n only while the chain's true height is below the
+   announcement end block of attempt n — whatever the script, provided the current-block query
+   reports the true height whenever it answers *)
+Theorem model_respects_true_height :
+  forall (ops : list N) (count self : N) (select : N -> list N -> sel) (s0 : Z)
+         (script : list step) (hs : list Z),
+    sees script hs ->
+    let its := fst (sign_loop sign_consts ops count self select script 0 s0 false) in
+    truth sign_consts s0 its (firstn (length its) hs).
+Proof.
+  intros. apply truth_ok_sound. apply sign_trace_truth. assumption.
+Qed.
+
+(* the executable property of a case is sound ... *)
+Theorem spec_ok_sound :
+  forall c : case,
+    spec_ok c = true ->
+    (forall it, In it (c_its c) -> iter_window false (consts_of (c_kind c)) (c_start c) it) /\
+    trace_disjoint (consts_of (c_kind c)) (c_its c) /\
+    (c_kind c = KSign -> truth sign_consts (c_start c) (c_its c) (c_truth c)).
+Proof.
+  intros c H. unfold spec_ok in H. apply andb_true_iff in H. destruct H as [H1 H2].
+  destruct (spec_its_sound _ _ _ _ H1) as [Hw Hd]. split; [exact Hw|]. split; [exact Hd|].
+  intro Ek. rewrite Ek in H2. cbn [is_sign consts_of] in H2. apply truth_ok_sound. exact H2.
+Qed.
+
+(* ... and holds of every run of the model on a chain whose height the script reports truthfully *)
+Theorem model_cases_pass_spec_ok :
+  forall c : case,
+    c_its c = fst (Concrete.run c) ->
+    (exists hs, sees (c_script c) hs /\ c_truth c = firstn (length (c_its c)) hs) ->
+    spec_ok c = true.
+Proof.
+  intros c Hrun [hs [Hsees Htruth]]. unfold spec_ok. rewrite Htruth, Hrun. clear Htruth Hrun.
+  unfold Concrete.run. destruct (c_kind c); cbn [is_sign consts_of].
+  - apply andb_true_iff. split.
+    + apply spec_its_weaken. apply sign_trace_spec, sign_consts_ok.
+    + apply sign_trace_truth. exact Hsees.
+  - rewrite andb_true_r. apply (dkg_trace_spec dkg_consts (c_ops c)), dkg_consts_ok.
+Qed.
+
 (* ---- the hypotheses are satisfiable: a signing run with a failed first attempt and a
    successful second one, and a key-generation run; the expected blocks are written with the
    window function so that the examples survive a change of the constants ---- *)
@@ -417,3 +549,23 @@ Example ex_dkg_run :
      Some (2%N, ann_end dkg_consts 100 2, timeout dkg_consts 100 2, [], true)] /\
   snd r = ODone (timeout dkg_consts 100 2).
 Proof. vm_compute. split; reflexivity. Qed.
+(* a late starter: attempt 1 is over at the true height, attempt 2 is joined and fails, the
+   chain is then past attempt 3, attempt 4 succeeds; [sees] holds of the script and its heights *)
+Definition ex_late (h : Z) (ann : list N) : step :=
+  {| st_cancel := 0; st_cur := Some h; st_wait := true; st_ann := Some ann;
+     st_att := true; st_sig := true; st_done := true |}.
+Example ex_late_run :
+  let a := ann_end sign_consts 200 in
+  let script := [ex_late (a 1) [1; 2; 3]; ex_late (a 1) [1]; ex_late (a 3) [1; 2; 3];
+                 ex_late (a 3) [1; 2; 3]]%N in
+  let hs := [a 1%N; a 1%N; a 3%N; a 3%N] in
+  sees script hs /\
+  let r := sign_loop sign_consts [1; 2; 3]%N 2 1 (fun _ _ => SOk []) script 0 200 false in
+  map ann_no (fst r) = [None; Some 2%N; None; Some 4%N] /\
+  snd r = ODone (timeout sign_consts 200 4) /\
+  truth_ok sign_consts 200 (fst r) hs = true.
+Proof.
+  cbv zeta. split.
+  - cbn [sees ex_late st_cur]. repeat split; intros c E; injection E as <-; reflexivity.
+  - vm_compute. repeat split; reflexivity.
+Qed.
